@@ -186,6 +186,9 @@ def run(R):
         s_, r_ = gen.render(a_, "Snake"), gen.render(b_, "Snake")
         rtree = [{"p": d_, "k": "d", "m": 0o755} for d_ in ("alpha", "beta", "src", "src/deep")] + \
                 [{"p": f"{d_}/{s_}_{j}.rs", "k": "f", "c": (s_ + " here\n").encode(), "m": 0o644} for d_ in ("alpha", "beta", "src", "src/deep") for j in range(2)]
+        # several term-named DIRECTORIES at the same depth in every root (directory renames are ordered by depth only: ties)
+        rtree += [{"p": f"{d_}/{s_}_pkg{j}", "k": "d", "m": 0o755} for d_ in ("alpha", "beta", "src") for j in range(4)] + \
+                 [{"p": f"{d_}/{s_}_pkg{j}/mod.rs", "k": "f", "c": b"// plain\n", "m": 0o644} for d_ in ("alpha", "beta", "src") for j in range(4)]
         for roots in (["alpha", "beta"], ["beta", "alpha", "src"], [".", "src", "--include", "src/**"], ["src", "src/deep", "alpha"]):
             determinism(R, rtree, s_, r_, stats, fails, quick, 3000 + k, reps=2 if quick else 4, extra_args=roots)
             stats["multi_root_scenarios"] = stats.get("multi_root_scenarios", 0) + 1
